@@ -29,6 +29,9 @@ pub fn info() -> PropertyInfo {
 pub struct Hist {
     pub cfg: Cfg,
     pub steps: Vec<Step>,
+    /// generator feature tags that were switched off (open findings) when this case was generated
+    #[serde(default)]
+    pub excluded: Vec<String>,
 }
 
 pub fn classify(interp: &Interp, f: Failure, out: &mut CaseOut) -> Option<Failure> {
@@ -58,7 +61,9 @@ pub fn classify(interp: &Interp, f: Failure, out: &mut CaseOut) -> Option<Failur
     None
 }
 
-pub fn run_with(c: &Hist, excluded: &BTreeMap<String, String>) -> CaseOut {
+pub fn run_with(c: &Hist) -> CaseOut {
+    let excluded: BTreeMap<String, String> = c.excluded.iter().map(|t| (t.clone(), String::new())).collect();
+    let excluded = &excluded;
     let mut out = CaseOut::pass();
     let mut it = match Interp::new(c.cfg, excluded.clone()) {
         Ok(i) => i,
@@ -139,17 +144,18 @@ pub fn run_shard(ctx: &mut ShardCtx) {
         ctx.witnesses(&replay);
     }
     let n = ctx.share(ctx.tier.pick(8_000, 120_000));
-    let excluded = ctx.excludes.clone();
-    let strat = (gen_cfg(), gen_history(&opts(ctx))).prop_map(|(cfg, steps)| Hist { cfg, steps });
-    ctx.search("history", strat, n, &|c: &Hist| run_with(c, &excluded));
-    let strat2 = (gen_cfg(), gen_rb_reopen()).prop_map(|(cfg, steps)| Hist { cfg, steps });
-    ctx.search("history", strat2, n / 6, &|c: &Hist| run_with(c, &excluded));
+    let excluded: Vec<String> = ctx.excludes.keys().cloned().collect();
+    let ex2 = excluded.clone();
+    let strat = (gen_cfg(), gen_history(&opts(ctx))).prop_map(move |(cfg, steps)| Hist { cfg, steps, excluded: excluded.clone() });
+    ctx.search("history", strat, n, &run_with);
+    let strat2 = (gen_cfg(), gen_rb_reopen()).prop_map(move |(cfg, steps)| Hist { cfg, steps, excluded: ex2.clone() });
+    ctx.search("history", strat2, n / 6, &run_with);
 }
 
 pub fn replay(kind: &str, case: &Value) -> CaseOut {
     match kind {
         "history" => match from_value::<Hist>(case) {
-            Ok(c) => run_with(&c, &BTreeMap::new()),
+            Ok(c) => run_with(&c),
             Err(e) => CaseOut::fail(Failure::new("bad_replay", e)),
         },
         _ => CaseOut::fail(Failure::new("bad_replay", format!("unknown kind {kind}"))),
